@@ -18,7 +18,7 @@ def cond_tol(e, lad):
 
 
 def search(ck, tier, seed):
-    ents = catalogue.entries(tier)
+    ents = catalogue.entries(tier) + catalogue.boundary_entries()
     nseeds = 1 if tier == "quick" else 3
     for e in ents:
         for s in range(nseeds):
@@ -26,6 +26,8 @@ def search(ck, tier, seed):
             ck.case(("c02", e["name"], s), nontrivial=True)
             ck.count(e["name"].split("(")[0].split("[")[0])
             case = {"search": "roundtrip", "entry": e["name"], "seed": seed + s}
+            if t[0] != "ok" and e.get("boundary"):
+                continue        # a degenerate configuration the constructor rejects
             if t[0] != "ok":
                 ck.finding("transform:constructor-fails:%s" % e["name"], "%s: %s %s" % (e["name"], t[1], t[2]), case)
                 continue
@@ -74,6 +76,11 @@ def search(ck, tier, seed):
                     params = sh.gen_params(fam, K, False, kind, g)
                     x = sh.grid(fam, params, box, per_bin=2)
                     ck.case(("c02-spline", fam, K, bi, kind), nontrivial=True)
+                    unstable = fam == "cubic" and kind in ("wide", "onehot")
+
+                    def report(key, what, case_):
+                        # see C09: the cubic inverse is numerically unreliable for strongly non-uniform parameters (known finding)
+                        ck.finding("spline-roundtrip:cubic-inverse-unstable-for-non-uniform-parameters" if unstable else key, what, case_)
                     case = {"search": "spline", "family": fam, "K": K, "box": box, "kind": kind, "seed": seed}
                     r = sh.call(fam, False, x, params, box=box)
                     if r[0] != "ok":
@@ -83,11 +90,17 @@ def search(ck, tier, seed):
                     b = sh.call(fam, True, y, params, box=box)
                     tag = "%s:%s" % (fam, kind)
                     if b[0] != "ok":
-                        ck.finding("spline-roundtrip:inverse-fails:%s:%s" % (tag, b[1]), "box %s K=%d: %s" % (box, K, b[2]), case)
+                        report("spline-roundtrip:inverse-fails:%s:%s" % (tag, b[1]), "box %s K=%d: %s" % (box, K, b[2]), case)
                         continue
                     xr, ladi = b[1]
                     if not bool(torch.isfinite(xr).all() and torch.isfinite(ladi).all()):
-                        ck.finding("spline-roundtrip:non-finite:%s" % tag, "box %s K=%d at y=%s" % (box, K, y[~torch.isfinite(xr)][:3].tolist()), case)
+                        bad_y = y[~(torch.isfinite(xr) & torch.isfinite(ladi))]
+                        sc_ = 1e-9 * max(1.0, abs(box[2]), abs(box[3]))
+                        at_top = bool((((bad_y - box[3]).abs() <= sc_) | ((bad_y - box[2]).abs() <= sc_)).all())
+                        # the cubic inverse's trigonometric root loses all precision at the two end points when the outer bins are
+                        # strongly non-uniform (known finding): keyed by the site, whatever parameter family produced it
+                        where = "cubic:end-point" if (fam == "cubic" and at_top) else tag
+                        report("spline-roundtrip:non-finite:%s" % where, "box %s K=%d params=%s at y=%s" % (box, K, kind, bad_y[:3].tolist()), case)
                         continue
                     scale = max(1.0, abs(box[0]), abs(box[1]))
                     slope_inv = torch.exp((-lad).clamp(max=40))
@@ -95,7 +108,7 @@ def search(ck, tier, seed):
                     bad = (xr - x).abs() > tol
                     if bool(bad.any()):
                         i = int(torch.nonzero(bad)[0])
-                        ck.finding("spline-roundtrip:not-identity:%s" % tag,
+                        report("spline-roundtrip:not-identity:%s" % tag,
                                    "box %s K=%d: x=%r -> y=%r -> %r" % (box, K, float(x[i]), float(y[i]), float(xr[i])), case)
                     ladtol = 1e-3 if fam == "cubic" else 1e-6
                     interior = (x > box[0]) & (x < box[1])
@@ -105,7 +118,7 @@ def search(ck, tier, seed):
                             interior &= (x - k).abs() > 1e-9 * scale
                     if bool(((lad + ladi).abs()[interior] > ladtol * (1 + lad.abs()[interior])).any()):
                         i = int(torch.nonzero(interior & ((lad + ladi).abs() > ladtol * (1 + lad.abs())))[0])
-                        ck.finding("spline-roundtrip:logabsdet-not-negated:%s" % tag,
+                        report("spline-roundtrip:logabsdet-not-negated:%s" % tag,
                                    "box %s K=%d x=%r: %r vs %r" % (box, K, float(x[i]), float(lad[i]), float(ladi[i])), case)
 
 
